@@ -28,7 +28,8 @@ PROP = dict(
         H(NP, "c23", "c23_t_v4_trunc_n", 'v4 field one byte longer than the packet', tier="thorough", timeout_thorough=3600),  # measured 117 s CBMC under load
         H(NP, "c23", "c23_t_v5_nodraft_n", 'v5 without draft identification', tier="thorough", timeout_thorough=3600),  # measured 46 s CBMC under load
         H(NP, "c23", "c23_t_nts_v4_n", 'v4 cookie + NTS field, no keys', tier="thorough", timeout_thorough=3600),  # measured 60 s CBMC under load
-    ],
+        H("ntp_proto_h", "c23f", "c23_encrypted_field_frame", "function level: RawEncryptedField::from_message_bytes (the framing of an NTS encrypted field body, run in every key context before any key lookup) is total and exact for every body of up to 32 bytes with symbolic nonce/ciphertext length words", timeout=300),
+],
     # prepared in the harness crate but NOT registered (did not finish / not re-verified in time / expected to fail):
     # c23_s_short_n, c23_s_short45_n, c23_s_mac_short_n, c23_s_version_n, c23_s_v5_n, c23_s_v5_mode0_n, c23_s_v5_mode7_n, c23_s_v5_timescale_n, c23_s_v5_flags0_n, c23_s_v5_flags1_n, c23_t_v4_multi_n, c23_t_v4_placeholder_n, c23_t_v4_long_n, c23_t_v4_multi_trunc_n, c23_t_v4_len0_n, c23_t_v4_len3_n, c23_t_v4_len30_n, c23_t_v4_lenmax_n, c23_t_v5_placeholder_n, c23_t_v5_nopad5_n, c23_t_v5_nopad17_n, c23_t_v5_len3_n, c23_t_v5_lenmax_n, c23_t_v5_refid_short_n, c23_t_v5_draft_sym_n, c23_t_v5_draft_second_n, c23_t_v5_draft_first_wrong_n, c23_t_nts_v4_long_n, c23_t_nts_v4_short_n, c23_t_nts_v5_n, c23_t_nts_v4_c, c23_t_nts_v4_mac_c, c23_t_nts_v4_notag_c, c23_t_nts_v4_nonce_c, c23_t_nts_v4_huge_c, c23_t_nts_v5_c, c23_t_nts_v5_odd_c, c23_t_nts_v5_long_c, c23_t_nts_v4_k, c23_t_nts_v4_nocookie_k, c23_t_nts_v4_twocookies_k, c23_t_nts_v5_k
 )
